@@ -33,9 +33,10 @@ impl ResVal for RR { fn mk(v: u8) -> Self { RR(v) } fn v(&self) -> u8 { self.0 }
 impl ResVal for RS { fn mk(v: u8) -> Self { RS(v) } fn v(&self) -> u8 { self.0 } }
 impl ResVal for RT { fn mk(v: u8) -> Self { RT(v) } fn v(&self) -> u8 { self.0 } }
 
-pub struct X(pub u32);
+/// Second field: an auto-despawn signal clone the payload owns (released when the payload is dropped).
+pub struct X(pub u32, pub Option<AutoDespawnSignal>);
 impl Drop for X { fn drop(&mut self) { log(Ev::Drop(self.0)); } }
-pub struct Y(pub u32);
+pub struct Y(pub u32, pub Option<AutoDespawnSignal>);
 impl Drop for Y { fn drop(&mut self) { log(Ev::Drop(self.0)); } }
 
 /// Inserted once at setup and never touched again: `is_changed()` is true exactly on a system's first run.
@@ -501,14 +502,33 @@ fn interp_basic(op: &Op, u: u32, c: &mut Commands, h: &mut H) -> Option<bool>
         {
             if let Some(sc) = h.insts[*i as usize]
             {
-                match p { P::X => c.send_system_event(sc, X(u)), P::Y => c.send_system_event(sc, Y(u)) }
+                match p { P::X => c.send_system_event(sc, X(u, None)), P::Y => c.send_system_event(sc, Y(u, None)) }
             }
         }
-        Op::Broadcast(p) => match p { P::X => c.react().broadcast(X(u)), P::Y => c.react().broadcast(Y(u)) },
+        Op::Broadcast(p) => match p { P::X => c.react().broadcast(X(u, None)), P::Y => c.react().broadcast(Y(u, None)) },
         Op::EntityEvent(s, p) =>
         {
             let e = h.slots[*s as usize];
-            match p { P::X => c.react().entity_event(e, X(u)), P::Y => c.react().entity_event(e, Y(u)) }
+            match p { P::X => c.react().entity_event(e, X(u, None)), P::Y => c.react().entity_event(e, Y(u, None)) }
+        }
+        Op::BroadcastSig(p, k) =>
+        {
+            let sig = h.sigs[*k as usize % 4].pop();
+            match p { P::X => c.react().broadcast(X(u, sig)), P::Y => c.react().broadcast(Y(u, sig)) }
+        }
+        Op::EntityEventSig(s, p, k) =>
+        {
+            let e = h.slots[*s as usize];
+            let sig = h.sigs[*k as usize % 4].pop();
+            match p { P::X => c.react().entity_event(e, X(u, sig)), P::Y => c.react().entity_event(e, Y(u, sig)) }
+        }
+        Op::SysEventSig(i, p, k) =>
+        {
+            if let Some(sc) = h.insts[*i as usize]
+            {
+                let sig = h.sigs[*k as usize % 4].pop();
+                match p { P::X => c.send_system_event(sc, X(u, sig)), P::Y => c.send_system_event(sc, Y(u, sig)) }
+            }
         }
         Op::TriggerRes(r) => match r
         {
@@ -853,14 +873,14 @@ pub fn exec_wop(world: &mut World, op: &WOp, u: u32)
         {
             if let Some(sc) = world.resource::<H>().insts[*i as usize]
             {
-                match p { P::X => world.send_system_event(sc, X(u)), P::Y => world.send_system_event(sc, Y(u)) }
+                match p { P::X => world.send_system_event(sc, X(u, None)), P::Y => world.send_system_event(sc, Y(u, None)) }
             }
         }
-        WOp::Broadcast(p) => match p { P::X => world.broadcast(X(u)), P::Y => world.broadcast(Y(u)) },
+        WOp::Broadcast(p) => match p { P::X => world.broadcast(X(u, None)), P::Y => world.broadcast(Y(u, None)) },
         WOp::EntityEvent(s, p) =>
         {
             let e = slot(world, *s);
-            match p { P::X => world.entity_event(e, X(u)), P::Y => world.entity_event(e, Y(u)) }
+            match p { P::X => world.entity_event(e, X(u, None)), P::Y => world.entity_event(e, Y(u, None)) }
         }
         WOp::TriggerRes(r) => match r
         {
